@@ -30,12 +30,12 @@ pub fn buffer_profile() -> Profile {
         p_tag: 30,
         p_regexish: 40,
         cosmetic: true,
-        removeparam: false,
+        removeparam: true,
         redirect: true,
         csp: true,
         badfilter: false,
         generichide: true,
-        perms: false,
+        perms: true,
         tag_on_modifiers: false,
         extra: 0,
     }
